@@ -61,17 +61,17 @@ Mutations(c) ==
     IF Mode = "forge" THEN AllMutations(c.v, c.n, Tree(c.v, c.n, c.D), c.i) ELSE {NoMut}
 
 Verify(m) ==
-    /\ cur.kind = "tree" /\ hist = <<>>
     /\ hist' = <<CaseRec(cur, m)>>
     /\ UNCHANGED cur
 
 AskGate ==
-    /\ cur.kind = "gate" /\ hist = <<>>
+    /\ cur.kind = "gate"
     /\ hist' = <<[op |-> "gate", gate |-> cur.gate, h |-> cur.h,
                   after |-> B(IsAfterCodecUpgrade(Gate(cur.gate), cur.h))]>>
     /\ UNCHANGED cur
 
-Next == AskGate \/ (cur.kind = "tree" /\ \E m \in Mutations(cur) : Verify(m))
+\* one step per behaviour (the guard comes first so that verified cases are not expanded again)
+Next == hist = <<>> /\ (AskGate \/ (cur.kind = "tree" /\ \E m \in Mutations(cur) : Verify(m)))
 
 Spec == Init /\ [][Next]_vars
 
